@@ -714,8 +714,9 @@ func oracle(p params, possible map[string]map[string]bool, total int, r *rt.Resu
 		return fail("replies-not-own", "no order of the calls gives every call the reply to its own request: "+strings.Join(vals, "; "))
 	}
 	if hang {
-		// a call that never returns is not what C25 states (that is C15); the replies that did arrive were checked above
-		return fail("out-of-scope:hang", "a call did not return within 600 s (replies received so far are consistent): "+strings.Join(r.Verdict.Stuck, "; "))
+		// "each call returns the reply to the request it sent": a call that never returns does not
+		// (the replies that did arrive were checked above)
+		return fail("no-reply:hang", "a call did not return within 600 s although every timeout involved is <= 180 s: "+strings.Join(r.Verdict.Stuck, "; "))
 	}
 	if r.Verdict.Kind != "ok" || !ended {
 		return fail("verdict:"+r.Verdict.Kind, r.Verdict.Detail+" "+strings.Join(r.Verdict.Stuck, "; "))
@@ -885,11 +886,10 @@ func TestC25(t *testing.T) {
 			// <=2 deviations: two concurrent callers, one call each, on a structurally distinct subset
 			pair := func(proto, x, y string) params { return params{proto: proto, seqs: [][]string{{x}, {y}}} }
 			add([]params{
-				pair("peers", "peers1", "peers1"), pair("peers", "peers1", "peers2"), pair("peers", "peers2", "peers2"),
-				pair("txsub", "suba", "suba"), pair("txsub", "suba", "subb"), pair("txsub", "subb", "subc"),
-				pair("lsq", "acq", "qa"), pair("lsq", "qa", "qb"), pair("lsq", "qa", "qa"),
-				pair("txmon", "hasx", "hasy"), pair("txmon", "hasx", "next"), pair("txmon", "next", "next"),
-				pair("txmon", "next", "sizes"), pair("txmon", "acq", "sizes"),
+				pair("peers", "peers1", "peers2"), pair("peers", "peers2", "peers2"),
+				pair("txsub", "suba", "subb"), pair("txsub", "subb", "subc"),
+				pair("lsq", "acq", "qa"), pair("lsq", "qa", "qb"),
+				pair("txmon", "hasx", "next"), pair("txmon", "next", "sizes"),
 			}, 1, 2, 12*time.Minute)
 		}
 		for _, proto := range []string{"lsq", "txmon", "txsub", "peers"} {
@@ -898,17 +898,21 @@ func TestC25(t *testing.T) {
 			add(withReacq(shapes(proto, false, 2, 0)), 1, 1, 5*time.Minute)
 		}
 		if thorough {
-			// 2 x 1 calls: everything, <=1 deviation
-			for _, proto := range []string{"lsq", "txmon", "txsub", "peers"} {
-				add(withReacq(shapes(proto, false, 2, 1)), 1, 1, 5*time.Minute)
-			}
-			// 2 x 2 calls, <=1 deviation: peer-sharing and local-tx-submission complete,
-			// local-state-query complete, local-tx-monitor over {acquire, has-tx x, next-tx, release}
+			// 2 x 1 calls, <=1 deviation: complete except that local-tx-monitor leaves out has-tx y
+			// (same path as has-tx x) and get-sizes in the two-call sequence; those run on the canonical schedule only
+			add(shapes("peers", false, 2, 1), 1, 1, 5*time.Minute)
+			add(shapes("txsub", false, 2, 1), 1, 1, 5*time.Minute)
+			add(withReacq(shapes("lsq", false, 2, 1)), 1, 1, 5*time.Minute)
+			add(only(shapes("txmon", false, 2, 1), "acq", "hasx", "next", "rel"), 1, 1, 5*time.Minute)
+			add(shapes("txmon", false, 2, 1), 0, 0, time.Minute)
+			// 2 x 2 calls, <=1 deviation over {get-peers 1/2}, {submit a/b}, {acquire, query_a, release},
+			// {acquire, next-tx, release}; every other 2 x 2 scenario on the canonical schedule only
 			add(shapes("peers", false, 2, 2), 1, 1, 5*time.Minute)
 			add(only(shapes("txsub", false, 2, 2), "suba", "subb"), 1, 1, 5*time.Minute)
-			add(withReacq(shapes("lsq", false, 2, 2)), 1, 1, 5*time.Minute)
-			add(only(shapes("txmon", false, 2, 2), "acq", "hasx", "next", "rel"), 1, 1, 5*time.Minute)
-			// the rest of local-tx-monitor 2 x 2: canonical schedule only
+			add(withReacq(only(shapes("lsq", false, 2, 2), "acq", "qa", "rel")), 1, 1, 5*time.Minute)
+			add(only(shapes("txmon", false, 2, 2), "acq", "next", "rel"), 1, 1, 5*time.Minute)
+			add(shapes("txsub", false, 2, 2), 0, 0, time.Minute)
+			add(withReacq(shapes("lsq", false, 2, 2)), 0, 0, time.Minute)
 			add(shapes("txmon", false, 2, 2), 0, 0, time.Minute)
 		}
 		// the expensive (bound 2) scenarios are spread over the list so that the worker batches
